@@ -131,7 +131,14 @@ def values_close(a, b, rtol, atol):
         return isinstance(b, dict) and a.keys() == b.keys() and all(values_close(a[k], b[k], rtol, atol) for k in a)
     if isinstance(a, np.ndarray) or isinstance(b, np.ndarray):
         a, b = np.asarray(a, float), np.asarray(b, float)
-        return a.shape == b.shape and bool(np.allclose(a, b, rtol=rtol, atol=atol, equal_nan=False))
+        if a.shape != b.shape:
+            return False
+        if a.size == 0:
+            return True
+        # array-level tolerance: entries that are ~0 next to large ones (off-diagonal tensor entries) are judged
+        # against the magnitude of the whole array
+        scale = float(np.max(np.abs(b))) if np.all(np.isfinite(b)) else 0.0
+        return bool(np.all(np.isfinite(a)) and np.all(np.abs(a - b) <= rtol * scale + atol))
     if isinstance(a, float) and isinstance(b, float):
         return bool(np.isfinite(a) and np.isfinite(b) and abs(a - b) <= rtol * abs(b) + atol) or a == b
     return a == b
